@@ -143,8 +143,19 @@ pub fn worker_main(engine: &dyn Engine, args: &[String]) -> i32 {
         let seed = run_seed(base, engine.property(), *i);
         writeln!(out, "J {} {}", i, seed).unwrap();
         out.flush().unwrap();
-        let case = engine.generate(seed, quick);
-        let r = engine.execute(&case);
+        // a panic of the simulator's own code is a harness error, never a process death
+        let (case, r) = match crate::hashseed::guarded(|| {
+            let case = engine.generate(seed, quick);
+            let r = engine.execute(&case);
+            (case, r)
+        }) {
+            Ok(x) => x,
+            Err(p) => {
+                let mut r = RunResult::default();
+                r.invalid = Some(format!("harness panic: {} at {}:{}", p.message, p.file, p.line));
+                (Value::Null, r)
+            }
+        };
         for (k, v) in &r.counters {
             *counters.entry(k.clone()).or_insert(0) += v;
         }
